@@ -632,7 +632,8 @@ class DeserializationMethodVisitor(
                 len(method_by_cls) == len(alt_factories)
                 and not any(isinstance(x, CoercerMethod) for x in alt_methods)
                 # float alternative accepts integers too, which dispatch by type misses
-                and not (float in method_by_cls and int not in method_by_cls)
+                # (even with an int alternative, which can reject what float accepts)
+                and float not in method_by_cls
             ):
                 # Coercion induces a different type in data than type to deserialize.
                 # Prefer UnionMethod in this case.
